@@ -107,7 +107,14 @@ impl Monitor for CfgShadow {
                 holding_cap: 0,
                 oi_cap: 0,
                 engine: if v.unwired { String::new() } else { c.vamm_engine_override.clone().unwrap_or_else(|| w.engine.to_string()) },
-                insurance: if v.unwired { String::new() } else { w.insurance.to_string() },
+                insurance: if v.unwired {
+                    String::new()
+                } else if v.foreign_fund && !v.live {
+                    // (re-pointed by its owner as part of the deployment)
+                    w.insurance2.as_ref().map(|a| a.to_string()).unwrap_or_else(|| w.insurance.to_string())
+                } else {
+                    w.insurance.to_string()
+                },
                 pricefeed: w.feed.to_string(),
                 owner: "owner".into(),
             })
